@@ -343,13 +343,17 @@ Definition programme_start (r : frame_rate) (g : list Z) (c : start_cfg) : optio
       | _, _, _, _ => None
       end
   end.
+(* the rows of the grid: 23 for teletext; for open subtitles the configured number or MNR (Tech 3264: 01..99).  A
+   declared count that is not a positive number (MNR 00, a configured 0 or a negative number) declares no grid, like
+   a field that is not a number: the 23 rows are used *)
+Definition grid_rows (n : Z) : Z := match n with Zpos _ => n | _ => 23 end.
 Definition max_rows (g : list Z) (c : rows_cfg) : option Z :=
   if teletext_dsc (gsi_dsc g) then Some 23 else
   match c with
   | RowsDefault => Some 23
-  | RowsInt n => Some n
+  | RowsInt n => Some (grid_rows n)
   | RowsMNR => match numeric_field (gsi_mnr g) with
-               | Some (Number n) => Some n
+               | Some (Number n) => Some (grid_rows n)
                | Some NotANumber => Some 23
                | None => None
                end
@@ -429,7 +433,6 @@ Definition presentation (file : list Z) (sc : start_cfg) (rc : rows_cfg) : optio
       | Some subs =>
           match max_rows g rc, programme_start r g sc with
           | Some rows, Some start =>
-              if rows <? 1 then None else
               match paragraphs_go r start (decoder_spec (gsi_cct g)) (teletext_dsc (gsi_dsc g)) subs (-1) [] None with
               | Some ps => Some (by_group ps, rows)
               | None => None
